@@ -82,3 +82,13 @@ func TestCreateRacesWithDestroyedGroup(t *testing.T) {
 	sub := vf.Cur().Sub("create-races-with-destroyed-group", sprintf(rule, "targeted, with yield hooks: ingestion of a firing alert is held between finding no group and publishing the one it built, while a resolved, old alert of the same group creates the group, which flushes, empties and is marked destroyed before the sweep removes it; the firing alert must not be lost"), 10)
 	sysrun.Run(t, "C01", sub, sysrun.Family{Name: "cdg", Quick: 60, Thorough: 3000, NonTrivial: nt, Gen: scen.CreateRacesWithDestroyedGroup}, checkers)
 }
+
+func TestShrinkingExplicitEnd(t *testing.T) {
+	sub := vf.Cur().Sub("shrinking-explicit-end", sprintf(rule, "targeted: an alert with an explicit end 25-35 min ahead is re-submitted with an earlier, overlapping explicit end; the merged alert keeps the later end and must keep being listed as firing until then"), 10)
+	sysrun.Run(t, "C01", sub, sysrun.Family{Name: "shrink", Quick: 40, Thorough: 2000, NonTrivial: nt, Gen: scen.ShrinkingExplicitEnd}, checkers)
+}
+
+func TestAdjacentLabelBoundaries(t *testing.T) {
+	sub := vf.Cur().Sub("adjacent-label-boundaries", sprintf(rule, "targeted: two alerts of one group whose label names and values concatenate to the same text ({disk=\"1a\"} / {disk1=\"a\"}, ...); the second starts firing after the first was notified and must be notified like any new member"), 10)
+	sysrun.Run(t, "C01", sub, sysrun.Family{Name: "adj", Quick: 40, Thorough: 1500, NonTrivial: nt, Gen: scen.AdjacentLabelBoundaries}, checkers)
+}
